@@ -504,7 +504,7 @@ def main(tier):
     ev.cov["rule"] = RULE
     ev.assumptions = ["specifications written from the prelude's documentation comments and function names (foldl calls func(element, accumulator); "
                       "reduce needs >= 2 elements; sum/product return doubles; find returns a range positioned at the first match)"]
-    n = 4000 if tier == "quick" else 120000
+    n = 4000 if tier == "quick" else 100000
     failures = hyp.run("c17", ev, tier, n)
     confirmed = hyp.confirm("c17", failures, PID)
     for p, what in confirmed:
